@@ -97,6 +97,12 @@ pub fn dash_path(path: &Path, dash_array: &[f32], dash_offset: f32) -> Path {
                 state = initial;
             }
             PathOp::LineTo(pt) => {
+                if cur_pt.is_none() {
+                    // a path that begins with a line starts at that point
+                    // (as it does when it is filled or stroked undashed)
+                    start_point = Some(pt);
+                    dashed.move_to(pt.x, pt.y);
+                }
                 if let Some(cur_pt) = cur_pt {
                     let mut start = cur_pt;
                     let line = LineSegment {
